@@ -1,8 +1,34 @@
-// commands for tree
+// commands for tree: the REAL build_tree through wrappers::tree_progs
 use crate::*;
+
+use std::collections::HashSet;
+
+fn tree_strings(params: &str, halt: &str, lim: &str) -> Vec<String> {
+    let f: Vec<u64> = params.split(',').map(|x| x.parse().unwrap()).collect();
+    wrappers::tree_progs((f[0], f[1]), halt == "1", lim.parse().unwrap())
+}
+
+fn summary(l: &[String]) -> String {
+    let mut seen: HashSet<&str> = HashSet::new();
+    let mut dups = 0usize;
+    for s in l {
+        if !seen.insert(s.as_str()) {
+            dups += 1;
+        }
+    }
+    let mut sorted: Vec<&str> = l.iter().map(|s| s.as_str()).collect();
+    sorted.sort();
+    format!("{}|{}|dups={}", l.len(), fnv(&sorted.join("\n")), dups)
+}
 
 pub fn dispatch(fields: &[&str]) -> Option<String> {
     match fields {
+        ["tree", params, halt, lim] => Some(summary(&tree_strings(params, halt, lim))),
+        ["treedump", params, halt, lim] => {
+            let mut l = tree_strings(params, halt, lim);
+            l.sort();
+            Some(l.join(";"))
+        },
         _ => None,
     }
 }
